@@ -117,7 +117,7 @@ def check(run):
     r = gen.rng_for(run.seed, "c15")
     specs = []
     for i in range(8000 if thorough else 2500):
-        specs.append(build(r, "E%d" % i, generics=r.choice([None, None, None, "T", "a", "N", "TU", "Tw", "aTw", "I", "aI", "Tdef", "TwU"])))
+        specs.append(build(r, "E%d" % i, generics=r.choice([None, None, None, "T", "a", "N", "TU", "Tw", "aTw", "I", "aI", "Tdef", "TwU", "Tnd", "NT"])))
     units = [shards.Unit("u_" + s.name.lower(), glue(s, r), meta={"enum_src": s.render(), "bare_src": s.render_bare()}, sig=s.signature()) for s in specs]
     run.rule = RULE
     samples = standard_flow(run, units, deps["std"], vmon, profiles=("debug",), tag="c15")
